@@ -89,6 +89,7 @@ type vzWorld struct {
 
 	lastFaultStep int
 	handlerSends  map[string]int
+	beyondModel   bool // validators holding >= 1/3 of the power have equivocated in some round
 	progressAt    int // step of the last finalization anywhere (0 = none yet)
 	notes         []string
 	seenProposals map[string][]string // "h/r" -> proposal hashes seen on the wire
